@@ -12,7 +12,7 @@
    class-independent deviations that pypika's own tests pin — WITH names are rendered bare, and a table alias used as a
    column qualifier takes quote_char (visible for Snowflake only, whose alias quote differs from its quote_char). *)
 From PV Require Import Base Crit gen.TermsTable Terms Page gen.QueryTable Query QueryCorr Dialect DialectCorr.
-From PV Require Import lemmas.DialectTerms lemmas.DialectQuery lemmas.DialectProps.
+From PV Require Import lemmas.DialectTerms lemmas.DialectQuery lemmas.DialectProps lemmas.DialectView.
 
 (* the property, literally *)
 Definition C07_full_statement : Prop :=
@@ -175,6 +175,40 @@ Proof.
   split; [exact defaults_quote_kept|]. split; [exact defaults_gba|exact defaults_below_function].
 Qed.
 Print Assumptions C07_outermost_wins.
+
+(* statements: the token view IS the shared statement renderer.  For every statement (all five kinds, WITH, joins, sub-queries
+   at every position, function arguments, set operations incl. nested ones), every kwargs context, flags, alias, origin and
+   every fuel: whenever the token renderer answers [Ok ts], Query.rquery / Query.ritem answer [Ok (tflat ts)].  (Query.rquery is
+   re-stated in open-recursion form that is convertible with the nested fixpoint: lemmas rquery_unfold / ritem_unfold are
+   proved by reflexivity.)  The statement is "as labelled" (the class labels are part of [x]; every labelling is some [x]). *)
+Theorem C07_statement_token_view :
+  forall n,
+    (forall k og srcs c i ts, itoks (fun c => c) n k og srcs c i = Ok ts -> ritem k srcs c i = Ok (tflat ts)) /\
+    (forall kin og wal sub pv ali x ts,
+       qtoks (fun c => c) n kin og wal sub pv ali x = Ok ts -> rquery kin wal sub ali x = Ok (tflat ts)).
+Proof. exact toks_view. Qed.
+Print Assumptions C07_statement_token_view.
+
+Theorem C07_str_token_view :
+  forall n x ts, str_toks (fun c => c) n x = Ok ts -> str_query x = Ok (tflat ts).
+Proof. exact str_toks_view. Qed.
+Print Assumptions C07_str_token_view.
+
+(* hence the property (modulo the documented residue) is a statement about the text Query.str_query produces: that text is
+   the concatenation of tokens each of which follows the outer class's convention for its role *)
+Theorem C07_holds_of_str_query :
+  forall n x ts, str_toks (fun c => c) n x = Ok ts ->
+    str_query x = Ok (tflat ts)
+    /\ Forall (strict_or_residue (top_cls x)) ts
+    /\ Forall (fun t => residue_tok t = true \/ strict_tok (conv_cls (top_cls x)) (qalias_quote (top_cls x)) t) ts.
+Proof.
+  intros n x ts H.
+  assert (E : top_cls_r (fun c => c) x = top_cls x) by (destruct x as [? ? ? ? ? ? ? ? ? ? ? ? ? ?|? ? ? ? ? ? ?|? ? ? ? ? ? ?|? ? ?|b ? ? ? ? ?]; reflexivity).
+  rewrite <- E. split; [exact (str_toks_view n x ts H)|]. split.
+  - exact (str_toks_strict _ n x ts H).
+  - exact (str_toks_strict_nonresidue _ n x ts H).
+Qed.
+Print Assumptions C07_holds_of_str_query.
 
 (* expressions: the token view IS the shared renderer (Terms.render) *)
 Theorem C07_terms_token_view :
